@@ -58,9 +58,10 @@ func TestC20(t *testing.T) {
 		var o spec.C20Obs
 		oc := &opCount{n: map[string]int{}, err: map[string]int{}}
 		var idMu sync.Mutex
+		var burstDupHost, burstDupPlugin []uint32
 		done := func() {
 			o.Ops, o.OpErrs, o.Panics = oc.n, oc.err, oc.panics
-			o.DupHost, o.DupPlugin = dups(o.HostIDs), dups(o.PluginIDs)
+			o.DupHost, o.DupPlugin = append(dups(o.HostIDs), burstDupHost...), append(dups(o.PluginIDs), burstDupPlugin...)
 			if len(o.HostIDs) > 50 {
 				o.HostIDs = o.HostIDs[:50]
 			}
@@ -112,6 +113,69 @@ func TestC20(t *testing.T) {
 				o.SetupErr = err.Error()
 				done()
 				return
+			}
+			if p.Seed%2 == 0 {
+				// every other round starts with both id counters just below the uint32 wrap, so that the
+				// round's concurrent NextId calls cross it
+				v := ^uint32(0) - uint32(20+p.Seed%200)
+				if pr.kind == "mux" {
+					plugin.VerifSetNextId(pr.hostMux, v)
+					plugin.VerifSetNextId(pr.plugMux, v)
+				} else {
+					plugin.VerifSetNextId(pr.hostGRPC, v)
+					plugin.VerifSetNextId(pr.plugGRPC, v)
+				}
+			}
+			if p.Seed%2 == 0 {
+				// bursts across the wrap: the counter is put 8 below the wrap and 16 goroutines released from a
+				// barrier take 4 ids each; every id of a burst must be different (300 bursts per side)
+				for _, side := range []string{"host", "plugin"} {
+					var b interface{ NextId() uint32 }
+					switch {
+					case pr.kind == "mux" && side == "host":
+						b = pr.hostMux
+					case pr.kind == "mux":
+						b = pr.plugMux
+					case side == "host":
+						b = pr.hostGRPC
+					default:
+						b = pr.plugGRPC
+					}
+					for burst := 0; burst < 300; burst++ {
+						plugin.VerifSetNextId(b, ^uint32(0)-8)
+						var got [16][4]uint32
+						var start, wg sync.WaitGroup
+						start.Add(1)
+						for g := 0; g < 16; g++ {
+							wg.Add(1)
+							go func(g int) {
+								defer wg.Done()
+								start.Wait()
+								for k := 0; k < 4; k++ {
+									got[g][k] = b.NextId()
+								}
+							}(g)
+						}
+						start.Done()
+						wg.Wait()
+						seen := map[uint32]bool{}
+						for g := range got {
+							for _, id := range got[g] {
+								if seen[id] {
+									idMu.Lock()
+									if side == "host" {
+										burstDupHost = append(burstDupHost, id)
+									} else {
+										burstDupPlugin = append(burstDupPlugin, id)
+									}
+									idMu.Unlock()
+								}
+								seen[id] = true
+							}
+						}
+						oc.do("nextid-wrap-burst", func() error { return nil })
+					}
+				}
 			}
 			nextID := func(side string) uint32 {
 				var id uint32
